@@ -454,8 +454,70 @@ def pools(ctx):
     return out
 
 
+def check_estimate_across_merge(ctx, db, smi):
+    """An estimate that outlives an overwriting merge INTO ITS OWN library is
+    either a snapshot (all values as before the merge) or a live view (all
+    values as a new estimate of the merged library) -- never a mixture of
+    the two, and the same whether or not it was evaluated before."""
+    case = {'probe': 'estimate across merge', 'db': db, 'smiles': smi}
+    props = ('get_CpoR', 'get_HoRT', 'get_SoR', 'get_GoRT')
+    try:
+        lib = libs.fresh(db)
+        d = lib.GetDescriptors(smi)
+        est_warm = lib.Estimate(d, 'thermochem')
+        est_cold = lib.Estimate(d, 'thermochem')
+        T = 500.0
+        r = est_warm.get_range()
+        if r is not None:
+            T = min(max(T, r[0]), r[1])
+        pre = tuple(repr(observe(getattr(est_warm, p), T).get('ok'))
+                    for p in props)
+        if 'None' in pre:
+            ctx.skip('estimate across merge: molecule lacks data')
+            return
+        lib2 = libs.fresh(db)
+        changed = 0
+        for g in d:
+            ent = lib2[g]
+            c2 = ent.get('thermochem') if hasattr(ent, 'get') else None
+            if c2 is None or c2.ND_H_ref is None or c2.ND_S_ref is None:
+                continue
+            c2.update(type(c2)(c2.ND_H_ref + 1.5, c2.ND_S_ref + 0.75, {},
+                               c2.T_ref, c2.get_range()), overwrite=True)
+            changed += 1
+        if not changed:
+            return
+        lib.Update(lib2, overwrite=True)
+        new = lib.Estimate(d, 'thermochem')
+        post_new = tuple(repr(observe(getattr(new, p), T).get('ok'))
+                         for p in props)
+        for lab, e in (('evaluated before the merge', est_warm),
+                       ('never evaluated before the merge', est_cold)):
+            post = tuple(repr(observe(getattr(e, p), T).get('ok'))
+                         for p in props)
+            ctx.evals(4)
+            if post != pre and post != post_new:
+                ctx.violation('an estimate that outlived an overwriting merge '
+                              'into its library mixes old and new data',
+                              dict(case, estimate=lab),
+                              {'before': pre, 'after': post,
+                               'new_estimate': post_new})
+                return
+        if post_new == pre:
+            ctx.violation('an overwriting merge did not change a new '
+                          'estimate', case, {'values': pre})
+            return
+        ctx.count('estimates_followed_across_an_overwriting_merge')
+    except Exception as exc:
+        ctx.skip('estimate across merge: %s' % type(exc).__name__)
+
+
 def run_shard(ctx):
     pl = pools(ctx)
+    for k, db in enumerate(libs.LIBS):
+        if (k + ctx.shard) % 4 == 0:
+            for smi in ('CCCO', 'CC(C)CC(C)C'):
+                check_estimate_across_merge(ctx, db, smi)
     nh = 7 if ctx.tier == 'quick' else 90
     hists = []
     for k in range(nh):
